@@ -105,7 +105,9 @@ Finish(c, r, k) == sv[c][r] = "running" /\ FinishWith(c, r, k, gs)
 \* therefore calls GracefulStop alone only when no reader is parked (GStop) and otherwise together with
 \* the return of one running handler of the single parked connection (GFinish, one settled step).
 NoneParked == \A c \in Conns : ~ReaderBlocked(sv, c)
-GStop == /\ gs = "no" /\ ~stopped /\ NoneParked
+\* GracefulStop may also follow a Stop that has returned (no reader parked: every connection is gone):
+\* it still has to wait for the handlers that outlive the Stop.
+GStop == /\ gs = "no" /\ NoneParked
          /\ gs' = GsNext("called", sv)
          /\ UNCHANGED <<cl, clcode, sv, ctxd, hcode, stopped, late, killed>>
 GFinish(c, r, k) == /\ gs = "no" /\ ~stopped
